@@ -13,8 +13,11 @@ handshake and Hello reply driven by hand).  Operations:
                                errorReceived / _onMethodTimeout / methodReturnReceived (return that fails the
                                declared signature) / connectionLost
   ['callbad', rs]              callRemote with an invalid member name (construction raises)
-  ['recall', k]                callRemoteMessage with the message object of call k again (same serial;
-                               outside the property, correspondence only)
+  ['recall', k]                callRemoteMessage with the message object of call k again (same serial): while k is
+                               outstanding this is outside the property (stream serial-reuse, correspondence only);
+                               after k has completed it is a call like any other (stream resend, judged)
+  ['callmsg', tmo, react]      callRemoteMessage with a freshly prepared message; react entries [tmo, 'SAME'] make the
+                               errback re-send the SAME message object (same serial) when it runs
   ['ret', who, v]              method return; who = k (the k-th top-level call operation) | ['r', k, j] (the j-th
                                call issued by the errback of call k; no such call yet: an unused serial) |
                                ['u', n] unsolicited serial | ['h', n] Hello's serial | ['f', n] a serial n ahead of
@@ -47,7 +50,7 @@ import struct
 import types
 
 STREAMS = ['cvt-direct', 'interleave-exhaustive', 'random-schedules', 'reentrant', 'disconnect-callbacks',
-           'serial-reuse', 'not-ready']
+           'resend', 'serial-reuse', 'not-ready']
 THEOREMS = [
     'refinement',
     'exactly_once',
@@ -344,7 +347,7 @@ class Impl:
             return self.top[key[1]] if key[1] < len(self.top) else None
         return self.rdid.get(key)
 
-    def _attach(self, did, d, react=None, react_ok=None, k=None):
+    def _attach(self, did, d, react=None, react_ok=None, k=None, mcall=None):
         """Record every firing of `d`; `react` / `react_ok` = lists of [tmo, rs]: calls the errback / the callback
         issues at once, from inside whatever function of the connection fired the Deferred."""
         self.dids[id(d)] = did
@@ -354,7 +357,11 @@ class Impl:
         def again(kind, calls):
             try:
                 for j, (tmo, rs) in enumerate(calls):
-                    self._issue((kind, k, j), 1, tmo, rs)
+                    if rs == 'SAME':
+                        # the caller re-sends the very same prepared message object (same serial)
+                        self._issue((kind, k, j), 1, tmo, 'K', via_msg=True, mcall=mcall)
+                    else:
+                        self._issue((kind, k, j), 1, tmo, rs)
             except Exception as e:          # the harness's own failure must not vanish inside the Deferred
                 self.harness_error = e
 
@@ -369,29 +376,37 @@ class Impl:
                 again('r', react)
         d.addCallbacks(cb, eb)
 
-    def _issue(self, key, er, tmo, rs, react=None, react_ok=None):
-        """callRemote; returns (did, serial).  The serial is read from the bytes the connection wrote."""
+    def _issue(self, key, er, tmo, rs, react=None, react_ok=None, via_msg=False, mcall=None):
+        """callRemote (or, via_msg, callRemoteMessage with a prepared message object - a new one, or `mcall`
+        again); returns (did, serial).  The serial is read from the bytes the connection wrote."""
         did = len(self.calls)
         kw = {}
         if rs != 'K':
             kw['returnSignature'] = rs
         timeout = self.timeout_for(key, did, tmo)
         mark = len(self.tr.value())
-        d = self.conn.callRemote('/obj', 'Method', interface='org.t.Iface', destination='org.t.Dest',
-                                 expectReply=bool(er), timeout=timeout, **kw)
+        if via_msg:
+            if mcall is None:
+                mcall = self.message.MethodCallMessage('/obj', 'Method', interface='org.t.Iface',
+                                                       destination='org.t.Dest')
+            d = self.conn.callRemoteMessage(mcall, timeout)
+            d.addCallback(self.conn._cbCvtReply, self.client._NO_CHECK_RETURN)     # what callRemote adds
+        else:
+            d = self.conn.callRemote('/obj', 'Method', interface='org.t.Iface', destination='org.t.Dest',
+                                     expectReply=bool(er), timeout=timeout, **kw)
         sent = self.tr.value()[mark:]
         serial = le32(sent[8:12]) if len(sent) >= 16 else None
         # nothing written: the message could not be built - or (a conceivable repair) the connection refuses
         # calls once it is lost
         self.calls.append({'serial': serial, 'er': bool(er), 'tmo': tmo, 'rs': rs,
                            'bad': serial is None and not self.is_lost, 'unsent': serial is None and self.is_lost,
-                           'ref': key})
+                           'ref': key, 'mcall': mcall})
         self.created.append(did)
         if key[0] == 't':
             self.top.append(did)
         else:
             self.rdid[key] = did
-        self._attach(did, d, react, react_ok, key[1] if key[0] == 't' else None)
+        self._attach(did, d, react, react_ok, key[1] if key[0] == 't' else None, mcall)
         return did, serial
 
     def plan_deadlines(self, ops):
@@ -459,7 +474,8 @@ class Impl:
 
     @staticmethod
     def newcalls_line(kind, k, calls):
-        return ' '.join('%s %s {%s:%d:%d}' % (t, rs_tok(r), kind, k, j) for j, (t, r) in enumerate(calls))
+        return ' '.join('%s %s {%s:%d:%d}' % (t, rs_tok('K' if r == 'SAME' else r), kind, k, j)
+                        for j, (t, r) in enumerate(calls))
 
     def do(self, op):
         """Run one operation; returns (model lines, fault names, reply serials used, dids the operation names).
@@ -493,6 +509,15 @@ class Impl:
                         lines.append('onerr %d %s' % (did, self.newcalls_line('r', k, react)))
                     if react_ok:
                         lines.append('onok %d %s' % (did, self.newcalls_line('s', k, react_ok)))
+            elif kind == 'callmsg':
+                # callRemoteMessage with a prepared message; the errback may re-send the same object
+                tmo = op[1]
+                react = op[2] if len(op) > 2 and op[2] else None
+                k = len(self.top)
+                did, serial = self._issue(('t', k), 1, tmo, 'K', react, None, via_msg=True)
+                lines.append('call %d 1 %s K' % (serial, tmo))
+                if react:
+                    lines.append('onerr %d %s' % (did, self.newcalls_line('r', k, react)))
             elif kind in ('callbad', 'callbig'):
                 rs = op[1]
                 did = len(self.calls)
@@ -816,9 +841,9 @@ class Monitor:
         if kind == 'hello':
             self.state[0] = 'skip'
             return
-        if kind in ('call', 'callbad', 'callbig', 'recall') and not st.created:
+        if kind in ('call', 'callmsg', 'callbad', 'callbig', 'recall') and not st.created:
             pass        # the operation raised before a call existed (reported below as a fault)
-        elif kind in ('call', 'callbad', 'callbig', 'recall'):
+        elif kind in ('call', 'callmsg', 'callbad', 'callbig', 'recall'):
             did = st.created[0]
             c = im.calls[did]
             if c.get('bad'):
@@ -1325,6 +1350,39 @@ def gen_disconnect_callbacks():
                     yield {'stream': 'disconnect-callbacks', 'ready': True, 'serial0': 1, 'ops': ops}
 
 
+def gen_resend():
+    """A prepared message sent with callRemoteMessage; once that call has completed (deadline, error reply, loss) the
+    caller sends the SAME message object again - from inside the errback, or later from the top level.  The serial is
+    the same, but never held by two outstanding calls: the second attempt is a call like any other."""
+    def follows(r, tmo2, may_lose):
+        x = [['expire', r]] if tmo2 == 'P' else []
+        out = [[['ret', r, 2]], [['err', r, 2]], [['ret', r, 2], ['ret', r, 4]]]
+        if x:
+            out += [x, [['ret', r, 2]] + x, x + [['ret', r, 2]], [['err', r, 2]] + x]
+        if may_lose:
+            out += [[['lost', 1]] + x, [['ret', r, 2], ['lost', 1]]]
+        return out
+
+    for tmo1 in ('P', 'N'):
+        for tmo2 in ('P', 'N'):
+            for trig in ('expire', 'err', 'lost'):
+                if trig == 'expire' and tmo1 != 'P':
+                    continue
+                for extra in ([], [['call', 1, 'P', 'K']]):
+                    k = len(extra)
+                    fire = {'expire': [['expire', k]], 'err': [['err', k, 2]], 'lost': [['lost', 0]]}[trig]
+                    for f in follows(['r', k, 0], tmo2, trig != 'lost'):
+                        if trig == 'lost':
+                            f = [o for o in f if o[0] == 'expire']      # no data on a lost connection
+                        yield {'stream': 'resend', 'ready': True, 'serial0': 1,
+                               'ops': extra + [['callmsg', tmo1, [[tmo2, 'SAME']]]] + fire + f}
+                    # the same, re-sent from the top level after the first attempt has completed
+                    if trig != 'lost':
+                        for f in follows(k + 1, tmo1, True):
+                            yield {'stream': 'resend', 'ready': True, 'serial0': 1,
+                                   'ops': extra + [['callmsg', tmo1]] + fire + [['recall', k]] + f}
+
+
 def gen_reuse(rng):
     """Scenarios that re-send one message object (same serial): correspondence of the dict overwrite and of the
     faults (KeyError / AlreadyCalled) only; the property's hypothesis does not hold here."""
@@ -1495,7 +1553,7 @@ def monitor_scenario(scn):
     return im, steps, mon.problems
 
 
-ORACLE_STREAMS = ('interleave-exhaustive', 'random-schedules', 'reentrant', 'disconnect-callbacks')
+ORACLE_STREAMS = ('interleave-exhaustive', 'random-schedules', 'reentrant', 'disconnect-callbacks', 'resend')
 
 
 def process_batch(ctx, batch):
@@ -1558,7 +1616,7 @@ def stats(ctx, scn, im, steps):
             if len(o) > 4 and o[4]:
                 ctx.stat('call-with-retrying-errback')
     for st in steps:
-        own = 1 if st.op[0] in ('call', 'callbad', 'callbig', 'recall', 'hello') else 0
+        own = 1 if st.op[0] in ('call', 'callmsg', 'callbad', 'callbig', 'recall', 'hello') else 0
         if len(st.created) > own:
             ctx.stat('call-issued-by-callback-inside:' + st.op[0], len(st.created) - own)
         for did, k, v in st.new:
@@ -1619,6 +1677,8 @@ def run(ctx):
         if not process_batch(ctx, list(gen_reentrant_systematic())):
             return
         if not process_batch(ctx, list(gen_disconnect_callbacks())):
+            return
+        if not process_batch(ctx, list(gen_resend())):
             return
         k = ctx.scale(quick=700, thorough=12000)
         for b in batches((gen_reentrant_random(ctx.rng) for _ in range(k)), 4000):
